@@ -108,9 +108,16 @@ def check_line(line, hout, dout, stats, notes):
     raw = any(o[0] == "M" for o in ops)
     if raw:
         # state-model-level commands bypass the filter: outside the property, compared as notes only
+        br = stats.setdefault("branches", {})
         for i, (a, b) in enumerate(zip(ht, dt)):
             if a != b:
                 notes.append((line, i, a, b))
+            mp = b.split("/")
+            if len(mp) == 4:      # model branches reached only by bypassing the filter (copy / untouched)
+                key = "raw:pred:%s:%s" % (pk, "atPredict" if mp[1][0] == "1" else ("atPredictStep" if mp[2] == "id" else "ran-" + mp[2]))
+                br[key] = br.get(key, 0) + 1
+                key = "raw:cmd:M:%s" % mp[0]
+                br[key] = br.get(key, 0) + 1
         stats["raw_histories"] = stats.get("raw_histories", 0) + 1
         return []
     bad = []
